@@ -61,6 +61,11 @@ def main():
         wt = sys.argv[sys.argv.index("--worktree") + 1]
     src = "/tmp/seed-out/%s/%s" % (prop, ab)
     sid = "%s-%s" % (prop, ab)
+    if ab.startswith("R"):
+        # later rounds: one change per property, deliverables directly in <prop>-<round>
+        src = "/tmp/seed-out/%s-%s" % (prop, ab)
+        if "--worktree" not in sys.argv:
+            wt = "/tmp/wt%s-%s" % (ab[1:], prop)
     patch = os.path.join(src, "patch.diff")
     demo = os.path.join(src, "demo.rs")
     if not os.path.exists(demo) and os.path.exists(os.path.join(src, "demo.sh")):
